@@ -712,6 +712,9 @@ pub enum Call {
     /// the first no-loop rule of the set is removed from the engine's knowledge base and added again under the same
     /// name without no-loop (a hot replacement between two calls)
     ReplaceWithoutNoLoop,
+    /// a new no-loop rule "Z" with a salience above every other rule is added to the engine's knowledge base between two
+    /// calls (every stored rule moves one slot down)
+    AddRuleInFront,
 }
 
 pub fn history_rule_sets() -> Vec<(&'static str, Vec<RSpec>)> {
@@ -803,6 +806,9 @@ impl System for HSys {
         if self.rules.iter().any(|r| r.no_loop && !r.loa) && !self.rules.iter().any(|r| r.loa) {
             v.push(Call::ReplaceWithoutNoLoop);
         }
+        if !self.rules.iter().any(|r| r.loa) && !self.rules.iter().any(|r| r.name == "Z") {
+            v.push(Call::AddRuleInFront);
+        }
         v
     }
     fn step(&mut self, op: &Call) -> Result<u64, Mismatch> {
@@ -871,6 +877,14 @@ impl System for HSys {
                 self.em.fired_no_loop.remove(&r.name);
                 self.rules.push(r);
                 Ok(7)
+            }
+            Call::AddRuleInFront => {
+                let mut r = RSpec::plain("Z");
+                r.salience = 1000;
+                r.no_loop = true;
+                self.eng.knowledge_base().add_rule(r.build()).map_err(|e| Mismatch::new("add_failed", format!("{:?}", e)))?;
+                self.rules.push(r);
+                Ok(8)
             }
             Call::Exec(days) => {
                 let t = t_eval() + Duration::days(*days);
@@ -959,6 +973,7 @@ impl System for HSys {
             Call::ActivateApi(_) => "activate_agenda_group",
             Call::ResetNoLoop => "reset_no_loop_tracking",
             Call::ReplaceWithoutNoLoop => "replace_rule",
+            Call::AddRuleInFront => "add_rule_in_front",
         }
         .to_string()
     }
